@@ -195,6 +195,11 @@ type Sim struct {
 	logOn bool
 	log   []string
 	spec  bool // judge every reply against the sequential specification
+	bgInst map[string]map[string]int // background coroutine name -> instance id -> tick number of its first submission
+	// crash enumeration: stop right before / right after the crashAt-th store batch
+	crashAt      int
+	crashSide    string
+	crashPending bool
 
 	ilsig    []string // commit order signature parts
 	crashes  int
@@ -461,6 +466,17 @@ func (a *advAIO) EnqueueSQE(sqe *bus.SQE[t_aio.Submission, t_aio.Completion]) {
 		sqe.Callback(nil, t_api.NewError(t_api.StatusAIOSubmissionQueueFull, nil))
 		return
 	}
+	if name := sqe.Submission.Tags["name"]; s.opById[p.ReqId()] == nil && name != "" {
+		if s.bgInst == nil {
+			s.bgInst = map[string]map[string]int{}
+		}
+		if s.bgInst[name] == nil {
+			s.bgInst[name] = map[string]int{}
+		}
+		if _, ok := s.bgInst[name][p.ReqId()]; !ok {
+			s.bgInst[name][p.ReqId()] = s.tickNo
+		}
+	}
 	s.logf("AIO  dispatch #%d %s %s", p.seq, p.ReqId(), subString(sqe.Submission))
 	a.pending = append(a.pending, p)
 }
@@ -659,12 +675,22 @@ func (a *advAIO) Flush(t int64) {
 	}
 
 	for _, g := range groups {
+		if s.crashAt > 0 && s.batches+1 == s.crashAt && s.crashSide == "before" {
+			s.crashPending = true
+			s.logf("CRASH POINT before batch #%d", s.crashAt)
+			return
+		}
 		sqes := make([]*bus.SQE[t_aio.Submission, t_aio.Completion], len(g))
 		for i, p := range g {
 			sqes[i] = p.sqe
 		}
 		cqes := s.store.Process(sqes)
 		s.afterBatch(t, g, cqes)
+		if s.crashAt > 0 && s.batches == s.crashAt && s.crashSide == "after" {
+			s.crashPending = true
+			s.logf("CRASH POINT after batch #%d", s.crashAt)
+			return
+		}
 		first := len(a.cq)
 		for i, c := range cqes {
 			if g[i].post && c.Error == nil {
